@@ -178,14 +178,17 @@ class GenerateWasmVisitor(Visitor.DefaultVisitor):
     def v_BinaryInstruction(self, bi: LinearIR.BinaryInstruction, ctx: Context):
         assert ctx.Code
 
-        if isinstance(bi.Type, LinearIR.IntegerType):
+        # The instruction is selected by the type of the operands: a
+        # comparison of floats yields an int but is a float operation
+        operandType = bi.Values[0].Type
+        if isinstance(operandType, LinearIR.IntegerType):
             operationType = "i32"
-            unsigned = bi.Type.Unsigned
-        elif isinstance(bi.Type, LinearIR.FloatType):
+            unsigned = operandType.Unsigned
+        elif isinstance(operandType, LinearIR.FloatType):
             operationType = "f32"
         else:
             raise RuntimeError(
-                f"Unsupported type for binary operation: {bi.Type}"
+                f"Unsupported type for binary operation: {operandType}"
             )
 
         for value in bi.Values:
